@@ -356,3 +356,55 @@ func sameLoadPath(a, b ssa.Value) bool {
 	kb, _ := pathKey(lb.X)
 	return ka != "" && ka == kb
 }
+
+// R4PivotQueue — a pivot child's wrapped task is queued on the directly connected ancestor.
+func R4PivotQueue(c *Ctx) {
+	const rule = "R4-pivot-queue"
+	c.R.Rule(rule, "in PivotAddJob the only append of the wrapped COMMAND_PIVOT job goes to the queue of an agent X for which X.Pivots.Parent == nil holds at that point (the ancestor that checks in itself), X being reached by the same parent walk that built the layers; the plain job is appended to the child's own queue for display only", 1)
+	fn := c.P.Func(PkgAgent, "Agent.PivotAddJob")
+	if fn == nil {
+		c.R.Anchor(rule, "agent.(*Agent).PivotAddJob")
+		return
+	}
+	n := 0
+	for _, b := range fn.Blocks {
+		for _, in := range b.Instrs {
+			st, ok := in.(*ssa.Store)
+			if !ok {
+				continue
+			}
+			t, f, base, ok := FieldOf(st.Addr)
+			if !ok || t != PkgAgent+".Agent" || f != "JobQueue" {
+				continue
+			}
+			if ParamOf(base) != nil && ParamOf(base) == fn.Params[0] {
+				continue // the child's own queue (display only)
+			}
+			n++
+			basePath := AccessPath(base)
+			good := false
+			for _, fct := range FactsAt(b) {
+				bo, ok := fct.Cond.(*ssa.BinOp)
+				if !ok || !(isNilConst(bo.X) || isNilConst(bo.Y)) {
+					continue
+				}
+				v := bo.X
+				if isNilConst(bo.X) {
+					v = bo.Y
+				}
+				if ((bo.Op == token.EQL) == fct.Truth) && AccessPath(v) == basePath+".Pivots.Parent" && basePath != "" {
+					good = true
+				}
+			}
+			construct := "wrapped job → queue of the top ancestor"
+			if good {
+				c.R.Ok(rule, FuncShort(fn), construct, c.pos(st.Pos()), "appended to "+basePath+".JobQueue where "+basePath+".Pivots.Parent == nil", true)
+			} else {
+				c.R.Bad(rule, FuncShort(fn), construct, c.pos(st.Pos()), "the wrapped job is appended to "+basePath+".JobQueue, an agent that is not known to be directly connected here (no dominating "+basePath+".Pivots.Parent == nil): for a child two or more hops deep it lands in a queue no check-in drains")
+			}
+		}
+	}
+	if n == 0 {
+		c.R.Bad(rule, FuncShort(fn), "wrapped job → queue of the top ancestor", c.pos(fn.Pos()), "PivotAddJob queues nothing on an ancestor")
+	}
+}
